@@ -50,6 +50,62 @@ def run_impl(fam: Family, cases: list[dict]) -> list[dict]:
     return [_impl_safe((fam.impl, c)) for c in cases]
 
 
+def _paths_to_lists(v, path=()):
+    """All (path, length) of non-empty lists inside a JSON value."""
+    out = []
+    if isinstance(v, list):
+        if v:
+            out.append((path, len(v)))
+        for i, x in enumerate(v):
+            out.extend(_paths_to_lists(x, path + (i,)))
+    elif isinstance(v, dict):
+        for k, x in v.items():
+            out.extend(_paths_to_lists(x, path + (k,)))
+    return out
+
+
+def _delete_at(v, path, idx):
+    import copy
+    w = copy.deepcopy(v)
+    cur = w
+    for k in path:
+        cur = cur[k]
+    del cur[idx]
+    return w
+
+
+def shrink_case(fam: "Family", case: dict, clause: str, budget: int = 120) -> dict:
+    """Greedy structural shrinking of a failing input: repeatedly delete one list
+    element anywhere in the case while the oracle still reports the same clause
+    (and the implementation still runs).  Generic over JSON-shaped cases."""
+    def still_fails(c):
+        r = _impl_safe((fam.impl, c))
+        if "exc" in r:
+            return False
+        try:
+            return any(f.get("clause") == clause for f in fam.oracle(c, r["ok"]))
+        except Exception:  # noqa: BLE001
+            return False
+    cur, spent, progress = case, 0, True
+    while progress and spent < budget:
+        progress = False
+        for path, n in sorted(_paths_to_lists(cur), key=lambda x: -x[1]):
+            for idx in range(n - 1, -1, -1):
+                if spent >= budget:
+                    break
+                try:
+                    cand = _delete_at(cur, path, idx)
+                except Exception:  # noqa: BLE001
+                    continue
+                spent += 1
+                if still_fails(cand):
+                    cur, progress = cand, True
+                    break
+            if progress or spent >= budget:
+                break
+    return cur
+
+
 def load_corpus(pid: str, fam: str) -> list[dict]:
     d = os.path.join(VERIF, "corpus", pid)
     out = []
@@ -99,7 +155,15 @@ def run_family(ctx, fam: Family, n: int, search_factor: int = 6) -> dict:
                 stats["known"] += 1
                 continue
             unattributed += 1
-            ctx.violation("oracle", dict(family=fam.name, case=c, obs=o, failure=f))
+            detail = dict(family=fam.name, case=c, obs=o, failure=f)
+            if unattributed == 1 and f.get("clause"):
+                try:
+                    small = shrink_case(fam, c, f["clause"])
+                    if small != c:
+                        detail["minimized_case"] = small
+                except Exception:  # noqa: BLE001
+                    pass
+            ctx.violation("oracle", detail)
     if (bad or errs) and not unattributed:
         # Correspondence broke but the oracle saw nothing yet: search more inputs.
         found = False
